@@ -25,6 +25,19 @@ CPP_API = {
 }
 
 
+_ARITH = {"bool": ("b", 1), "char": ("i", 1), "short": ("i", 2), "int": ("i", 4), "long": ("i", 8), "long long": ("i", 8),
+          "unsigned char": ("u", 1), "unsigned short": ("u", 2), "unsigned int": ("u", 4), "unsigned": ("u", 4), "unsigned long": ("u", 8),
+          "unsigned long long": ("u", 8), "size_t": ("u", 8), "std::size_t": ("u", 8), "uint64_t": ("u", 8), "uint32_t": ("u", 4),
+          "float": ("f", 4), "double": ("f", 8), "long double": ("f", 16)}
+
+
+def _arith(t):
+    """(kind, bytes) of an arithmetic type spelled with optional const / pointer / reference, else None"""
+    t = t.replace("const", " ").replace("&", " ").replace("*", " ")
+    t = " ".join(t.split())
+    return _ARITH.get(t)
+
+
 def create_world_rule(P, rep, F, rule, handle_out_idx, data_idx, is_ctor=False):
     """new World(file, has_output_dir, output_dir, seed) receives the wrapper's arguments unchanged"""
     news = [n for n in F.walk() if n.get("k") == "CXXNewExpr" and "WorldBuilder::World" in n.get("alloc", "")]
@@ -65,6 +78,25 @@ def create_world_rule(P, rep, F, rule, handle_out_idx, data_idx, is_ctor=False):
             good = False
         else:
             rep.ok(rule, "%s: %s <- %s (%s)" % (F.name, names[i], fw.name(want), ls[0].form), F.nloc(a), F.qn)
+    # the arithmetic arguments keep their value: the wrapper's parameter type must hold every value of the World parameter's type
+    wcs = [f for f in P.funcs_named("WorldBuilder::World::World") if len(f.params) >= 4]
+    if len(wcs) == 1:
+        for i, a in enumerate(args[:4]):
+            if i >= len(data_idx):
+                continue
+            tw = _arith(P.d(wcs[0].params[i]).get("t", ""))
+            tp = _arith(P.d(F.params[data_idx[i]]).get("t", ""))
+            if tw is None or tp is None:
+                continue
+            if tp[0] != tw[0] or tp[1] < tw[1]:
+                rep.violation(rule, "%s: %s type" % (inst, names[i]), F.loc, F.qn, P.d(F.params[data_idx[i]]).get("t", ""),
+                              "the wrapper takes the value as %s but the World takes %s: values are converted on the way"
+                              % (P.d(F.params[data_idx[i]]).get("t", ""), P.d(wcs[0].params[i]).get("t", "")),
+                              key="%s|%s|type%d" % (rule, F.qn, i), witness="a seed above 2^53 (double) or above the narrower type's range")
+            else:
+                rep.ok(rule, "%s: %s keeps its type (%s)" % (F.name, names[i], P.d(F.params[data_idx[i]]).get("t", "")), F.loc, F.qn)
+    else:
+        rep.unknown(rule, "World constructor: %d candidates" % len(wcs))
     if len(args) != 4:
         rep.violation(rule, inst, F.nloc(ctor), F.qn, norm.render(P, ctor), "%d arguments reach the World constructor, 4 expected" % len(args),
                       key="%s|%s|nargs" % (rule, F.qn))
